@@ -156,6 +156,67 @@ func TestVerifC07IndexJSON(t *testing.T) {
 				r.Nontrivial(variant + "|" + im.Hash)
 			}
 		}
+		// storage that stops accepting writes WITHOUT the process dying: for every mutating
+		// file-system attempt of the second run and every refusal mode, the run is repeated on a
+		// fresh file system with that attempt (and all later ones) refused. Whatever the command
+		// returns, the database visible afterwards is the old one (byte for byte) or the complete
+		// new one — and the new one if the command reported success.
+		{
+			probe := crashfs.New()
+			probe.MkdirAll("/d", 0o755)
+			vos.FS = probe
+			vos.ResetTemp()
+			if variant == "extend-existing" {
+				RunIndexJSON("first", first, "FamA", "HIGH", "malware", path)
+			}
+			a0 := probe.Attempts()
+			RunIndexJSON("second", second, "FamB", "HIGH", "malware", path)
+			a1 := probe.Attempts()
+			for k := a0; k < a1; k++ {
+				for _, mode := range []string{"readonly", "nospace", "short"} {
+					ffs := crashfs.New()
+					ffs.MkdirAll("/d", 0o755)
+					vos.FS = ffs
+					vos.ResetTemp()
+					if variant == "extend-existing" {
+						if _, _, err := RunIndexJSON("first", first, "FamA", "HIGH", "malware", path); err != nil {
+							r.Fail("first index run (fault pass): %v", err)
+							return
+						}
+					}
+					ffs.FailAt, ffs.FailMode = k, mode
+					n0 := ffs.Len()
+					_, _, runErr := RunIndexJSON("second", second, "FamB", "HIGH", "malware", path)
+					ffs.FailAt = -1
+					r.Eval()
+					r.Count("fault_points", 1)
+					key := fmt.Sprintf("index-fault/%s/%s/attempt=%d", variant, mode, k-a0)
+					r.Nontrivial(key)
+					rp := map[string]interface{}{"variant": variant, "mode": mode, "attempt": k - a0}
+					var done []string
+					for _, o := range ffs.Snapshot()[n0:] {
+						done = append(done, o.String())
+					}
+					got, raw, err := c07idxNames(ffs, path)
+					what := fmt.Sprintf("storage refusing operations (%s) from mutating attempt #%d of the run on (operations that did happen: %v), command returned %v", mode, k-a0, done, runErr)
+					switch {
+					case err != nil && variant == "create-new" && raw == "" && runErr != nil:
+						outcomes["fault: absent, error reported"]++
+					case err != nil:
+						r.Violate(key, fmt.Sprintf("%s: the database is unreadable afterwards (%v)", what, err), rp)
+					case strings.Join(got, ",") == strings.Join(newNames, ","):
+						outcomes["fault: new"]++
+					case runErr == nil:
+						r.Violate(key, fmt.Sprintf("%s: reported success but the database holds %v, not %v", what, got, newNames), rp)
+					case variant == "extend-existing" && raw == oldContent:
+						outcomes["fault: old, error reported"]++
+					default:
+						r.Violate(key, fmt.Sprintf("%s: the database holds %v — neither the state before the run nor after it", what, got), rp)
+					}
+				}
+			}
+			vos.FS = cfs
+		}
 		for k, v := range outcomes {
 			r.Count("image_holds/"+variant+"/"+k, v)
 		}
